@@ -82,6 +82,16 @@ class DynamicEnumMeta(EnumMeta):
     def __iter__(cls):
         return (enum for enum in super().__iter__() if not enum.name.startswith(cls.UNRECOGNIZED_PREFIX))
 
+    def __reversed__(cls):
+        return (enum for enum in super().__reversed__() if not enum.name.startswith(cls.UNRECOGNIZED_PREFIX))
+
+    def __contains__(cls, value):
+        # Like iteration, membership tests do not see the hidden entries added for unrecognized values.
+        if not super().__contains__(value):
+            return False
+        member = value if isinstance(value, cls) else cls._value2member_map_[value]
+        return not member.name.startswith(cls.UNRECOGNIZED_PREFIX)
+
     def __len__(cls):
         return len(list(iter(cls)))
 
